@@ -1309,6 +1309,8 @@ class Gen:
         a = self.strip(a)
         if a[0] == "var" and (a[1] in ("e", "_e") or (a[1] in self.param_names and a[1] not in env)):
             return True
+        if a == ("mcall", ("var", "e"), "current_contract_address", []):
+            return True
         return a[0] == "call" and a[1][0] == "path" and a[1][1][-1] == "new" and all(self.strip(x) in (("var", "e"), ("var", "_e")) for x in a[2])
 
     def call_fn(self, ns, name, recv, args, env, k, ret):
@@ -1394,6 +1396,14 @@ class Gen:
                     stmts2 = list(stmts)
                     stmts2[i] = ("expr", ("if", m_[1], blk(arms_["true"]), blk(arms_["false"])))
                     return self.tr_stmts(stmts2[i:], env, k_end, ret)
+            if s[0] == "let":
+                ini = self.strip(s[3])
+                if ini[0] == "call" and ini[1][0] == "path" and len(ini[1][1]) == 2 and ini[1][1][1] == "new" and ini[1][1][0].endswith("Client") \
+                        and any(k_.startswith(ini[1][1][0] + "_") for k_ in getattr(self, "reads", {})):
+                    # a cross-contract client: a handle; its calls are functions of the reads record that may panic
+                    for a_ in ini[2][1:]:
+                        self.pure(a_, env)    # the address it is built from must be a value we know
+                    return go(i + 1, dict(env, **{s[1]: ("", "Client:" + ini[1][1][0])}))
             if s[0] == "let" and getattr(self, "store", None):
                 ko = self.key_of(s[3], env)
                 if ko is not None:
@@ -1444,6 +1454,27 @@ class Gen:
                 return self.tr_while(s, env, lambda env2: go(i + 1, env2), ret)
             if s[0] == "for":
                 return self.tr_for(s, env, lambda env2: go(i + 1, env2), ret)
+            if s[0] == "expr":
+                e = self.strip(s[1])
+                if e[0] == "mcall" and self.strip(e[1])[0] == "var" and env.get(self.strip(e[1])[1], ("", ""))[1].startswith("Client:"):
+                    cname = env[self.strip(e[1])[1]][1][7:] + "_" + e[2]
+                    spec = getattr(self, "reads", {}).get(cname)
+                    if not (isinstance(spec, tuple) and spec[0] == "fn"):
+                        raise Unsupported(f"cross-contract call {cname} is not declared")
+                    cargs = [a for a in e[3] if not self.is_handle(a, env)]
+                    if len(cargs) != len(spec[1]):
+                        raise Unsupported(f"{cname}: arity")
+                    self.uses_reads = True
+                    atoms = []
+                    def gox(j):
+                        if j == len(cargs):
+                            v_ = self.fresh()
+                            return f"(Comp.bind (envr.{cname} {' '.join(atoms)}) fun {v_} =>\n {go(i + 1, env)})"
+                        def kx(a, t):
+                            atoms.append(as_nat(a, t) if spec[1][j] in NATTY else a)
+                            return gox(j + 1)
+                        return self.tr(cargs[j], env, kx, ret)
+                    return gox(0)
             if s[0] == "expr" and ("authorized" in getattr(self, "reads", {}) or getattr(self, "store", None)):
                 e = self.strip(s[1])
                 if e[0] == "mcall" and e[2] == "require_auth" and not e[3] and "authorized" in getattr(self, "reads", {}):
@@ -1822,6 +1853,14 @@ FILES_MERKLE = [("Merkle", "packages/contract-utils/src/crypto/hashable.rs", ["c
                 ("Merkle", "packages/contract-utils/src/crypto/merkle.rs", ["verify", "verify_with_index"])]
 TYMAPS_MERKLE = {"packages/contract-utils/src/crypto/hashable.rs": {"H": "Bytes32", "S": "Hasher!", "Output": "Bytes32"},
                  "packages/contract-utils/src/crypto/merkle.rs": {"H": "Hasher!"}}
+STORE_RWA = {"Rwa": {"Balance": (["Address"], "i128"), "TotalSupply": ([], "i128"), "AddressFrozen": (["Address"], "bool"),
+                     "FrozenTokens": (["Address"], "i128"), "Compliance": ([], "Address")}}
+READS_RWA = {"Rwa": {"ComplianceClient_transferred": ("fn", ["Address", "Address", "i128"], "()"),
+                     "ComplianceClient_destroyed": ("fn", ["Address", "i128"], "()")}}
+FILES_RWA = [("Rwa", "packages/tokens/src/fungible/storage.rs", ["total_supply", "balance", "update"]),
+             ("Rwa", "packages/tokens/src/rwa/storage.rs",
+              ["is_frozen", "get_frozen_tokens", "get_free_tokens", "compliance", "set_address_frozen", "freeze_partial_tokens",
+               "unfreeze_partial_tokens", "forced_transfer", "burn"])]
 STORE_TL = {"TimelockSt": {"MinDelay": ([], "u32"), "OperationLedger": (["Bytes32"], "u32")}}
 STRUCTS_TL = {"Operation": [("target", "Address"), ("function", "u32"), ("args", "u32"), ("predecessor", "Bytes32"), ("salt", "Bytes32")]}
 READS_TL = {"TimelockSt": {"ledger_sequence": "u32", "hash_operation": ("purefn", ["Operation"], "Bytes32")}}
@@ -2324,7 +2363,9 @@ def main():
                 sys.stdout.write(txt)
         sys.exit(rc)
     try:
-        if "--timelock-st" in sys.argv:
+        if "--rwa" in sys.argv:
+            txt = translate(repo, FILES_RWA, reads=READS_RWA, store=STORE_RWA, impl_types={"Base": "Rwa", "RWA": "Rwa"})
+        elif "--timelock-st" in sys.argv:
             txt = translate(repo, FILES_TL, reads=READS_TL, structs=STRUCTS_TL, store=STORE_TL,
                             tymaps={"packages/governance/src/timelock/storage.rs": {"BytesN<32>": "Bytes32"}},
                             rename_types={"OperationState": "TimelockSt.OperationState", "Operation": "TimelockSt.Operation"})
